@@ -322,6 +322,11 @@ func runC09(r *Report) {
 				rem2[Edge{b, su}] = true
 			}
 		}
+		// (the 'expected == 0' escape taken in front of the comparison instead of behind it is the same escape; whether it
+		// is too wide is judged above)
+		for _, e := range zeroT {
+			rem2[e] = true
+		}
 		bad = false
 		for _, nr := range nilReturns(fn) {
 			if siteReachable(nr, rem2) {
